@@ -9,9 +9,9 @@ TRUST = ("Trusted base: Go 1.26.8 testing/synctest (fake clock, quiescence), the
 
 checks = {
  "C03": dict(level="exploration", ref="DESIGN.md §4 C03",
-   technique="deterministic differential simulation: one dataset and query pool answered in 3-4 simulated worlds that differ only physically (batching, flush/rotation/restart points, cardinality limit, segment size, GOMAXPROCS, PQS and agile tree primed or off); canonical answers must agree",
+   technique="deterministic differential simulation: one dataset and query pool answered in 3-4 simulated worlds that differ only physically (batching, flush/rotation/restart points, cardinality limit, segment size, GOMAXPROCS, PQS and agile tree primed or off, memory-pressure faults that evict open-segment and rotated micro-indexes); canonical answers must agree",
    text="World sets are generated from one seed and each world runs the real node under the simulator; usage-driven accelerators (persistent-query results, agile tree) are primed by issuing the pool before ingestion, pruning paths by rotation; any difference between the canonical answers of two worlds is a violation with both world descriptions in the replay file.",
-   note=TRUST + " Only layout-dependence is reported (a filter wrong identically in every layout is C02). Accelerator files are not yet removed/made unreadable between incarnations."),
+   note=TRUST + " Only layout-dependence is reported (a filter wrong identically in every layout is C02). Accelerator files are not removed/made unreadable between incarnations; micro-index unavailability is injected in memory (mem_pressure: the memory limiter's rebalance entry points with a simulator-chosen budget)."),
  "C06": dict(level="exploration", ref="DESIGN.md §4 C06",
    technique="deterministic differential simulation: random command chains over one dataset answered under different chunkings (block and segment counts), numbers of parallel chains (GOMAXPROCS knob) and seeded interleavings of the chain goroutines; answers must be equal",
    text="The same chain text is executed in 4 worlds whose only differences are how the input stream is cut into blocks and segments, how many parallel chains the query processor clones, and the scheduler's interleaving of those chains; row sequences (where the chain defines an order), row multisets or group maps must be identical.",
@@ -65,9 +65,9 @@ checks = {
    text="The fake clock makes 'the time of arrival is used only when the event has no time of its own' an exact equality: each event's stored time must be its carried time, or lie in the simulated arrival interval iff none was carried, even though hours of simulated time pass before the flush and before the query. Fields, numbers and messages must be preserved under each protocol's mapping.",
    note=TRUST + " Scheduler off for this check (clock only). Driven: Elasticsearch bulk and single-document, Splunk HEC, Loki push JSON. Not driven: OTLP logs/traces/metrics (protobuf), Prometheus remote write; OpenTSDB put is covered by C08."),
  "C17": dict(level="exploration", ref="DESIGN.md §4 C17",
-   technique="deterministic simulation: seeded schedule search over the query lifecycle (concurrent sync queries incl. malformed texts, canceller, stall faults that let the short query time-out fire on the fake clock, admission limit 1-5), checked for admission limits, bounded answer time after faults stop, cancel promptness, empty tables and exact goroutine-leak detection after quiescence",
+   technique="deterministic simulation: seeded schedule search over the query lifecycle (concurrent synchronous and websocket queries incl. malformed texts, stalling/disconnecting websocket clients over synchronous in-memory pipes, canceller, stall faults that let the short query time-out fire on the fake clock, admission limit 1-5, memory-starved histories in which the limiter refuses search memory), checked for admission limits, bounded answer time after faults stop, cancel promptness, empty tables and exact goroutine-leak detection after quiescence",
    text="Query clients, a canceller, a stall-fault injector and a monitor run as tasks of the seeded scheduler against the real admission queue, time-out goroutines and query pipeline; because the simulator owns task creation, 'no goroutine of the query remains' is decided exactly by comparing the live task set with the pre-workload baseline; deadlocks, hangs, spins and panics of the node are violations.",
-   note=TRUST + " Decides the lifecycle/schedule half of C17. 'For all byte strings' parser totality is a pure input property: only a pool of malformed texts is sampled. The websocket transport is a stub (sync path driven)."),
+   note=TRUST + " Decides the lifecycle/schedule half of C17. 'For all byte strings' parser totality is a pure input property: only a pool of malformed texts is sampled. Memory starvation is provoked through the configured memory budget (the limiter's refusal), not through failing Go allocations."),
  "C18": dict(level="fault_enumeration", ref="DESIGN.md §4 C18",
    technique="deterministic simulation with damage enumeration: every truncation length and every byte x {bit flip, 0x00, 0xFF} of every file of a small deterministic node (log and metrics segments) applied between incarnations; a fresh process boots and runs a query suite compared row by row with the undamaged answers",
    text="Damage faults are applied by the driver to the stored files between two incarnations; the real start-up and query code runs on the damaged tree. Per query: every returned row must equal the undamaged row (altered values from a checksummed column block are never accepted), rows may be missing only with a reported error and only from queries touching the damaged file, no crash, no hang. Thorough enumerates the space until the time budget; exhaustive is claimed only when everything was run.",
